@@ -181,7 +181,8 @@ int main(int argc, char ** argv)
 {
     const char * file = NULL, * src = NULL, * entry = "main", * dumpf = NULL, * tracef = NULL, * resf = NULL;
     unsigned int mem = DEFAULT_VM_MEM_SIZE, stack = DEFAULT_VM_STACK_SIZE; int gcmode = 0, execs = 1, c, ret, k;
-    while ((c = getopt(argc, argv, "f:e:m:s:g:n:D:T:L:R:x:")) != -1)
+    const char * pre[16]; int npre = 0; program * preprog[16]; char * calls = NULL;
+    while ((c = getopt(argc, argv, "f:e:m:s:g:n:D:T:L:R:x:P:c:")) != -1)
     {
         switch (c)
         {
@@ -190,44 +191,74 @@ int main(int argc, char ** argv)
         case 'g': gcmode = atoi(optarg); break; case 'n': entry = optarg; break;
         case 'D': dumpf = optarg; break; case 'T': tracef = optarg; break; case 'L': maxlines = strtoull(optarg, NULL, 10); break;
         case 'R': resf = optarg; break; case 'x': execs = atoi(optarg); break;
+        case 'P': if (npre < 16) pre[npre++] = optarg; break; case 'c': calls = strdup(optarg); break;
         default: return 2;
         }
     }
     rf = resf ? fopen(resf, "w") : NULL;
     if (__sanitizer_set_death_callback) __sanitizer_set_death_callback(on_death);
     else { signal(SIGSEGV, on_signal); signal(SIGABRT, on_signal); signal(SIGFPE, on_signal); signal(SIGBUS, on_signal); }
+    for (k = 0; k < npre; k++)
+    {
+        int r0;
+        preprog[k] = program_new();
+        r0 = nev_compile_str(pre[k], preprog[k]);
+        if (rf) fprintf(rf, "precompile %d %d msgs=%u\n", k, r0, preprog[k]->msg_count);
+    }
     program * prog = program_new();
     ret = file ? nev_compile_file(file, prog) : nev_compile_str(src ? src : "", prog);
-    if (rf) fprintf(rf, "compile %d msgs=%u\n", ret, prog->msg_count);
-    if (ret != 0) { finish("compile-fail", ret); program_delete(prog); return 3; }
-    if (dumpf) { FILE * df = fopen(dumpf, "w"); dump_module(df, prog); fclose(df); }
-    ret = nev_prepare_argc_argv(prog, entry, argc - optind, argv + optind);
     if (rf)
     {
-        unsigned int p;
-        fprintf(rf, "prepare %d entry_addr=%u params=%u", ret, prog->entry_addr, prog->params_count);
-        for (p = 0; ret == 0 && p < prog->params_count; p++)
-        {
-            object * o = &prog->params[p];
-            if (o->type == OBJECT_INT) fprintf(rf, " I%d", o->int_value);
-            else if (o->type == OBJECT_FLOAT) { unsigned int b; memcpy(&b, &o->float_value, 4); fprintf(rf, " F%u", b); }
-            else if (o->type == OBJECT_STRING_REF) { unsigned char * s = (unsigned char *)o->string_value; fprintf(rf, " S"); for (; s && *s; s++) fprintf(rf, "%02x", *s); }
-            else if (o->type == OBJECT_STRING_ARR)
-            {
-                unsigned int q; fprintf(rf, " T%u", o->string_arr_value ? o->string_arr_value->argc : 0);
-                for (q = 0; o->string_arr_value && q < o->string_arr_value->argc; q++) { unsigned char * s = (unsigned char *)o->string_arr_value->argv[q]; fprintf(rf, ","); for (; s && *s; s++) fprintf(rf, "%02x", *s); }
-            }
-            else fprintf(rf, " ?%d", (int)o->type);
-        }
-        fprintf(rf, "\n");
+        unsigned int q;
+        fprintf(rf, "compile %d msgs=%u\n", ret, prog->msg_count);
+        for (q = 0; q < prog->msg_count; q++) { unsigned char * t = (unsigned char *)prog->msg_array[q]; fprintf(rf, "msg "); for (; t && *t; t++) fprintf(rf, "%02x", *t); fprintf(rf, "\n"); }
     }
-    if (ret != 0) { finish("prepare-fail", ret); program_delete(prog); return 4; }
-    machine = vm_new(mem, stack);
-    tf = tracef ? fopen(tracef, "w") : NULL;
-    never_verif_step_hook = hook;
-    never_verif_gc_mode = gcmode;
-    for (k = 0; k < execs; k++)
+    if (ret != 0) { finish("compile-fail", ret); program_delete(prog); return 3; }
+    if (dumpf) { FILE * df = fopen(dumpf, "w"); dump_module(df, prog); fclose(df); }
     {
+    /* call list: either -c "entry:a,b;entry:c" or `execs` times (entry, argv) */
+    char * callv[64]; int ncalls = 0;
+    if (calls) { char * p = strtok(calls, ";"); while (p && ncalls < 64) { callv[ncalls++] = p; p = strtok(NULL, ";"); } }
+    else { for (k = 0; k < execs && k < 64; k++) callv[ncalls++] = NULL; }
+    for (k = 0; k < ncalls; k++)
+    {
+        const char * en = entry; char * av[32]; int ac = 0; int a;
+        if (callv[k] != NULL)
+        {
+            char * colon = strchr(callv[k], ':');
+            en = callv[k];
+            if (colon) { *colon = 0; char * q = colon + 1; while (q && *q && ac < 32) { av[ac++] = q; q = strchr(q, ','); if (q) { *q = 0; q++; } } }
+        }
+        else { for (a = optind; a < argc && ac < 32; a++) av[ac++] = argv[a]; }
+        ret = nev_prepare_argc_argv(prog, en, ac, av);
+        if (rf)
+        {
+            unsigned int p;
+            fprintf(rf, "prepare %d entry_addr=%u params=%u", ret, prog->entry_addr, prog->params_count);
+            for (p = 0; ret == 0 && p < prog->params_count; p++)
+            {
+                object * o = &prog->params[p];
+                if (o->type == OBJECT_INT) fprintf(rf, " I%d", o->int_value);
+                else if (o->type == OBJECT_FLOAT) { unsigned int b; memcpy(&b, &o->float_value, 4); fprintf(rf, " F%u", b); }
+                else if (o->type == OBJECT_STRING_REF) { unsigned char * t = (unsigned char *)o->string_value; fprintf(rf, " S"); for (; t && *t; t++) fprintf(rf, "%02x", *t); }
+                else if (o->type == OBJECT_STRING_ARR)
+                {
+                    unsigned int q; fprintf(rf, " T%u", o->string_arr_value ? o->string_arr_value->argc : 0);
+                    for (q = 0; o->string_arr_value && q < o->string_arr_value->argc; q++) { unsigned char * t = (unsigned char *)o->string_arr_value->argv[q]; fprintf(rf, ","); for (; t && *t; t++) fprintf(rf, "%02x", *t); }
+                }
+                else fprintf(rf, " ?%d", (int)o->type);
+            }
+            fprintf(rf, " name=%s\n", en);
+        }
+        if (ret != 0) { if (k == 0) { finish("prepare-fail", ret); program_delete(prog); return 4; } continue; }
+        if (machine == NULL)
+        {
+            machine = vm_new(mem, stack);
+            tf = tracef ? fopen(tracef, "w") : NULL;
+            never_verif_step_hook = hook;
+            never_verif_gc_mode = gcmode;
+        }
+        {
         object result = { 0 };
         int sp0 = machine->sp;
         ret = nev_execute(prog, machine, &result);
@@ -247,12 +278,15 @@ int main(int argc, char ** argv)
             else fprintf(rf, "-");
             fprintf(rf, "\n");
         }
-        if (ret != 0) break;
+        if (ret != 0 && !calls) break;
+        }
+    }
     }
     finish("return", ret);
     never_verif_step_hook = NULL;
-    vm_delete(machine);
+    if (machine) vm_delete(machine);
     program_delete(prog);
+    for (k = 0; k < npre; k++) program_delete(preprog[k]);
     if (tf) fclose(tf);
     if (rf) fclose(rf);
     return ret ? 1 : 0;
